@@ -272,6 +272,19 @@ func AFMRelayout(t *sim.Tape, m *afm.Metrics) []byte {
 		}
 		sb.WriteString(nl)
 	}
+	// further glyphs that claim a code another glyph has already (the later line
+	// wins in the reader, always)
+	for i := t.Small(3); i > 0 && len(names) > 0; i-- {
+		other := m.Glyphs[names[t.Choose(len(names))]]
+		code := t.Choose(256)
+		for c, e := range m.Encoding {
+			if other != nil && e != ".notdef" && t.Bool(1, 2) {
+				code = c
+				break
+			}
+		}
+		fmt.Fprintf(&sb, "C %d ; WX %d ; N Dup%d ; B 0 0 %d %d ;%s", code, 100+i, i, 10*i, 20*i, nl)
+	}
 	fmt.Fprintf(&sb, "EndCharMetrics%s", nl)
 	if len(m.Kern) > 0 {
 		fmt.Fprintf(&sb, "StartKernData%sStartKernPairs %d%s", nl, len(m.Kern), nl)
